@@ -74,9 +74,12 @@ def make_formula_body(formula, default_value, assoc_value=None, indent=''):
       # We have a constant or f-string that spans multiple lines. If so, revert its indentation.
       start, end = atok.get_text_range(node)
       indented_text = atok.get_text(node)
-      # Only lines with content were indented (see _indent), so only those are un-indented.
-      unindented_text = re.sub(r'\n' + re.escape(indent) + r'(?=.*\S)', '\n', indented_text)
-      unindent_patches.append(textbuilder.Patch(start, end, indented_text, unindented_text))
+      # Only lines with content were indented (see _indent), so only those are un-indented. Use a
+      # separate patch for each removed indent (rather than one for the whole string), so that
+      # positions inside the string keep mapping back to the right place in the formula (this
+      # matters for renaming column references inside multi-line f-strings).
+      for m in re.finditer(r'\n' + re.escape(indent) + r'(?=.*\S)', indented_text):
+        unindent_patches.append(textbuilder.Patch(start + m.start() + 1, start + m.end(), indent, ''))
 
     return textbuilder.Replacer(builder, unindent_patches)
   else:
